@@ -15,7 +15,7 @@ ENGINES = [
                        "system on the edited assignment with forward re-derivation of dependent hints; shadow lies "
                        "re-executed through the library with ignore_errors on); the verifier is constraint evaluation"},
     {"name": "tracesim", "path": "sim/tracesim.py",
-     "serves_properties": ["C01", "C04", "C06", "C07", "C08", "C09", "C10", "C11", "C15", "C17"],
+     "serves_properties": ["C01", "C04", "C06", "C07", "C08", "C09", "C10", "C11", "C13", "C15", "C17"],
      "kind_free_text": "in-process deterministic simulation: seeded plan (program + inputs + fault schedule) "
                        "generated as data, compiled to Python source, executed against a fresh import of the real "
                        "pysnark with the real backend module wrapped by a recorder; invariants after every event"},
@@ -39,6 +39,11 @@ _P = "seeded search over lying-prover fault schedules (deterministic simulation,
 _X = "seeded search over crash points x termination modes x configurations, one fresh interpreter per run (deterministic simulation, crash injection)"
 
 CHECK_META = {
+    "C13": {"engine": "tracesim (LC-pool histories)", "design_ref": "3/C13", "technique": "seeded search over operation histories on shared objects (deterministic simulation); coefficient-vector reference model",
+            "text": "operation histories over a shared pool of linear combinations per backend class, every pool member "
+                    "compared with a coefficient-vector model after every step (operand immutability / aliasing), "
+                    "modulus and inverse checks per configuration; sampling",
+            "note": "gmpy2's invert path and libsnark's C++ class cannot be loaded here"},
     "C15": {"engine": "tracesim+proversim", "design_ref": "3/C15", "technique": _T + "; Python-list reference model; twin on index; lying prover",
             "text": "read/write histories vs a Python-list model executed from the same generated source, compared after "
                     "every operation; twin on the index value for the constraint system; out-of-range index against a "
